@@ -603,8 +603,14 @@ line_address			(struct frame *		f,
 			return VBI_ERR_DU_LINE_NUMBER;
 		}
 
-		if (0 == f->last_data_unit_id) {
-			/* Nothing to do. */
+		if (0 == f->last_data_unit_id
+		    || f->sp == f->sliced_begin) {
+			/* Nothing to do. (No line of this frame has
+			   been stored yet. Stuffing or unknown data
+			   units at the start of a packet do not define
+			   a field, and we must not report a new frame
+			   again when the packet is parsed from its
+			   start after a new frame was reported.) */
 		} else if (field != f->last_field) {
 			if (0 == f->n_data_units_extracted_from_packet)
 				return -1; /* new frame */
